@@ -637,9 +637,9 @@ func (m *RpcServer) ControlEnvironment(cxt context.Context, req *pb.ControlEnvir
 			WithField("level", infologger.IL_Ops).
 			WithError(err).
 			Errorf("transition '%s' failed, transitioning into ERROR.", req.GetType().String())
-		err = env.TryTransition(environment.NewGoErrorTransition(m.state.taskman))
-		if err != nil {
-			log.WithField("partition", env.Id()).Warnf("could not complete requested GO_ERROR transition, forcing move to ERROR: %s", err.Error())
+		errGoError := env.TryTransition(environment.NewGoErrorTransition(m.state.taskman))
+		if errGoError != nil {
+			log.WithField("partition", env.Id()).Warnf("could not complete requested GO_ERROR transition, forcing move to ERROR: %s", errGoError.Error())
 			env.Sm.SetState("ERROR")
 		}
 	}
